@@ -17,6 +17,8 @@ import (
 func TestVerifC01Public(t *testing.T) {
 	c := &seqChecks{c07: verifrt.NewResult("C07.public"), c01: verifrt.NewResult("C01.public"), c02: verifrt.NewResult("C02.viaRun"), c09: verifrt.NewResult("C09.viaRun")}
 	c.c01.Rule = "single-run scenarios of the C01.seq generator (mode on) executed through the public upload.Run: the upload configuration is served by a file-based module proxy and fetched by `go mod download` (RunConfig.Env), X is forced through the instrumented crypto/rand call; every request must equal reference filter(aggregate, fetched config, X) and carry no canary. distinct = scenarios with at least one request"
+	c05r := verifrt.NewResult("C05.viaRun")
+	c05r.Rule = "the same public upload.Run calls (mode on, configuration fetched through the go command), a third of them with a short-named foreign .json file in local/ on which the uploader's report handling gives up internally: Run must return normally, no panic may escape it. distinct = scenarios; non-trivial = scenario with the foreign file"
 	base := vtmp("c01p-")
 	defer os.RemoveAll(base)
 	n := verifrt.Scale(24, 600)
@@ -52,6 +54,8 @@ func TestVerifC01Public(t *testing.T) {
 				stray := verifrt.Pick(rnd, []string{"notes.json", "x.json", "a.json", "package.json", "zz.json"})
 				os.WriteFile(td.dir.LocalDir()+"/"+stray, []byte(`{"name":"something else"}`), 0o644)
 				c.c07.Hit("stray-json-in-local")
+				c05r.Hit("stray-json-in-local")
+				c05r.Distinct(fmt.Sprint(i))
 			}
 			if s.Xs[0] >= 0 {
 				forceX(s.Xs[0])
@@ -70,6 +74,10 @@ func TestVerifC01Public(t *testing.T) {
 					mm[k] = v
 				}
 				return mm
+			}
+			c05r.Eval()
+			if pv != nil {
+				c05r.Violate("uploader-panic-escaped", fmt.Sprintf("a panic escaped the public upload.Run: %v\n%.800s", pv, stack), replay(nil))
 			}
 			if pv != nil {
 				c.c01.Violate("run-panic", fmt.Sprintf("upload.Run let a panic escape: %v\n%.800s", pv, stack), replay(nil))
@@ -92,4 +100,6 @@ func TestVerifC01Public(t *testing.T) {
 	c.c07.Rule = "the same runs judged for C07 (local reports equal the reference sums; files removed only once a report exists); a third of them with a short-named foreign .json file in local/. distinct = scenarios"
 	c.c07.Require("stray-json-in-local")
 	c.c07.Write()
+	c05r.Require("stray-json-in-local")
+	c05r.Write()
 }
